@@ -70,10 +70,8 @@ def deliver (live : List Live) : List Bytes → List (Nat × Int × Res) × List
       let r := deliver (live.filter (fun l => l.id != i)) fs
       ((live.filter (fun l => l.id == i)).map (fun l => (l.serial, l.id, Res.ok f)) ++ r.1, r.2.1, r.2.2)
 
-/-- `l₁` and `l₂` have the same elements, each once (used for `close`, whose firing order is not
-    part of the property). -/
-def sameSet (l₁ l₂ : List (Nat × Int × Res)) : Bool :=
-  l₁.length == l₂.length && l₁.all (fun x => l₂.contains x) && l₂.all (fun x => l₁.contains x)
+/-- `l₁` is a permutation of `l₂` (used for `close`, whose firing order is not part of the property). -/
+def sameSet (l₁ l₂ : List (Nat × Int × Res)) : Bool := l₁.isPerm l₂
 
 def mstep (m : MSt) : Ev × List Ob → Option MSt
   | (.make id expect, os) =>
@@ -146,6 +144,72 @@ def firstBad (m : MSt) (n : Nat) : List (Ev × List Ob) → Option Nat
 
 def accepts (tr : List (Ev × List Ob)) : Bool := (mrun MSt.init tr).isSome
 
+/-! ## Routing: a reply is delivered to the request it answers
+
+The environment (the harness playing the broker) labels the replies it sends: bytes 4..12 of a reply
+are the `serial` of the request frame being answered (requests carry their serial at that place).
+A frame is an *honest first reply* when a request with that serial AND the frame's correlation id was
+written on the current connection and no frame with that id has arrived since.  C06 ("a response is
+never delivered to a different request") then demands: whatever such a frame fires is that serial.
+Duplicates, unsolicited frames and frames for other connections are not constrained here (the core
+monitor above constrains them). -/
+
+structure RSt where
+  /-- (serial, id) written on the current connection and not yet answered by a frame with that id -/
+  inflight : List (Nat × Int)
+  buf : Bytes
+  deriving DecidableEq, Repr
+
+def RSt.init : RSt := { inflight := [], buf := [] }
+
+/-- the serial a reply echoes -/
+def echo (b : Bytes) : Option Nat :=
+  if b.length < 12 then none else some (natBE ((b.drop 4).take 8))
+
+/-- writes add to `inflight`; a request that completes on being written (no reply expected) or whose
+    write failed leaves it again.  A CANCELLED request stays: its late reply must still not reach
+    anybody else. -/
+def track (inflight : List (Nat × Int)) : List Ob → List (Nat × Int)
+  | [] => inflight
+  | .write _ k i :: os => track (inflight ++ [(k, i)]) os
+  | .writeLost _ k i :: os => track (inflight ++ [(k, i)]) os
+  | .fire k _ .none :: os => track (inflight.filter (fun p => p.1 != k)) os
+  | .fire k _ (.err .writeError) :: os => track (inflight.filter (fun p => p.1 != k)) os
+  | _ :: os => track inflight os
+
+def frameIds : List Bytes → List Int
+  | [] => []
+  | f :: fs => match corrId f with
+    | none => []
+    | some i => i :: frameIds fs
+
+def rstep (m : RSt) : Ev × List Ob → Option RSt
+  | (.bytesIn chunk, os) =>
+    if isBad os then some m
+    else
+      let f := feed m.buf chunk
+      let okRoute := (fires os).all fun (k, i, r) =>
+        match r with
+        | .ok b => match echo b with
+          | some k' => !(m.inflight.contains (k', i)) || k == k'
+          | none => true
+        | _ => true
+      if !okRoute then none
+      else if os.contains .raiseUnderflow then some { inflight := [], buf := [] }
+      else some { inflight := m.inflight.filter (fun p => !(frameIds f.frames).contains p.2), buf := f.buf }
+  | (.connOk, os) => if isBad os then some m else some { inflight := track [] os, buf := [] }
+  | (.lost, os) => if isBad os then some m else some { inflight := [], buf := [] }
+  | (.close, os) => if os.contains .raiseAssert then some m else some { inflight := [], buf := m.buf }
+  | (_, os) => some { m with inflight := track m.inflight os }
+
+def rFirstBad (m : RSt) (n : Nat) : List (Ev × List Ob) → Option Nat
+  | [] => none
+  | t :: ts => match rstep m t with
+    | none => some n
+    | some m' => rFirstBad m' (n + 1) ts
+
+def routesOk (tr : List (Ev × List Ob)) : Bool := (rFirstBad RSt.init 0 tr).isNone
+
 /-! ## Bootstrap connection -/
 
 def bootFires : List Bootstrap.Ob → List (Nat × Bootstrap.Res)
@@ -176,8 +240,7 @@ def bootDeliver (live : List BLive) : List Bytes → List (Nat × Bootstrap.Res)
     let r := bootDeliver (live.filter (fun l => l.cid != cid)) fs
     ((live.filter (fun l => l.cid == cid)).map (fun l => (l.serial, Bootstrap.Res.ok f)) ++ r.1, r.2)
 
-def sameFires (l₁ l₂ : List (Nat × Bootstrap.Res)) : Bool :=
-  l₁.length == l₂.length && l₁.all (fun x => l₂.contains x) && l₂.all (fun x => l₁.contains x)
+def sameFires (l₁ l₂ : List (Nat × Bootstrap.Res)) : Bool := l₁.isPerm l₂
 
 /-- What C06 demands of a trace of one `KafkaBootstrapProtocol` connection: every request Deferred
     fires exactly once — `ok b` for the packet `b` completed in that step whose id bytes are the
